@@ -106,7 +106,15 @@ def sweep_C09(ctx):
 def run_pager(ctx, scen):
     """Interleaved pager: writer requests run between successive calls."""
     m = ctx.model
-    w = m.pref.get(O.dec(scen["ref"]))
+    if scen["ref"] in ("largest", "second"):
+        p2w = m.page_to_we()
+        cnt = Counter(x for x in p2w.values() if x is not None)
+        ranked = sorted(cnt, key=lambda x: (-cnt[x], x))
+        if not ranked:
+            return
+        w = ranked[1] if scen["ref"] == "second" and len(ranked) > 1 else ranked[0]
+    else:
+        w = m.pref.get(O.dec(scen["ref"]))
     if w is None:
         return
     prefs = m.we_prefixes(w)
@@ -193,6 +201,9 @@ def gen_C09(rng, tier, seed):
         base = rng.choice(g.pool)
         sp = stem_prefixes(base)
         ref = rng.choice(g.created_prefixes) if g.created_prefixes and rng.random() < 0.5 else rng.choice(sp[: max(1, len(sp) - 1)])
+        ref = O.enc(ref)
+        if rng.random() < 0.65:
+            ref = rng.choice(["largest", "largest", "second"])  # resolved at run time: webentity with most pages
         between = []
         for _ in range(rng.choice([1, 2, 3, 5])):
             ops = []
@@ -203,7 +214,7 @@ def gen_C09(rng, tier, seed):
                 ops.append(g.op())
                 g.weights = saved
             between.append(ops)
-        pagers.append({"ref": O.enc(ref), "k": rng.choice([1, 1, 2, 3, 5]), "crawled_only": rng.random() < 0.25, "rev": rng.random() < 0.3, "between": between})
+        pagers.append({"ref": ref, "k": rng.choice([1, 1, 1, 2, 2, 3, 5]), "crawled_only": rng.random() < 0.25, "rev": rng.random() < 0.3, "between": between})
     case["pagers"] = pagers
     return case
 
